@@ -763,6 +763,7 @@ def intrinsic(s, nm, rty, args):
             return '({ %s r_; unsigned __int128 x_ = (unsigned __int128)(%s), y_ = (unsigned __int128)(%s); __int128 w_ = (__int128)x_ %s (__int128)y_; r_.f0 = (%s)w_; r_.f1 = (w_ < 0) || ((unsigned __int128)w_ >> %d) != 0; r_; })' % (st, av[0], av[1], cop, T, nb)
         a_, b_ = s.sx(args[0][0], av[0]), s.sx(args[1][0], av[1])
         return '({ %s r_; __int128 w_ = (__int128)(%s) %s (__int128)(%s); r_.f0 = (%s)w_; r_.f1 = w_ < -((__int128)1 << %d) || w_ >= ((__int128)1 << %d); r_; })' % (st, a_, cop, b_, T, nb - 1, nb - 1)
+    if nm.startswith('llvm.fmuladd.'): return '((%s * %s) + %s)' % (av[0], av[1], av[2])   # unfused: x87 / SSE2 baseline has no FMA
     mo = re.match(r'llvm\.(floor|ceil|round|trunc|fabs|sqrt|rint|nearbyint)\.(f32|f64|f80)', nm)
     if mo: return 'rt_%s_%s(%s)' % (mo.group(1), mo.group(2), av[0])
     raise SyntaxError('intrinsic ' + nm)
@@ -941,6 +942,16 @@ def translate(m, roots):
         for c in sorted(g.used_globals):
             if c in m.funcs and c not in seen: todo.append(c)
     # static initialisers (llvm.global_ctors), in order; iostream's ios_base::Init registration is skipped (no stream is used)
+    def drain(todo):
+        while todo:
+            fn = todo.pop()
+            if fn in seen or fn not in m.funcs: continue
+            seen.add(fn); before = set(g.called)
+            hdr, body = FG(g, m.funcs[fn]).gen()
+            protos.append(hdr + ';'); bodies.append(body)
+            for c in sorted(g.called - before): todo.append(c)
+            for c in sorted(g.used_globals):
+                if c in m.funcs and c not in seen: todo.append(c)
     ctors = []
     for ln in m.gorder:
         if ln.startswith('@llvm.global_ctors'):
@@ -960,23 +971,6 @@ def translate(m, roots):
     protos.append('void rt_global_ctors(void);')
     bodies.append('void rt_global_ctors(void) { %s }\n' % ' '.join('%s();' % fname(c) for c in ctors))
     g.stats['global_ctors'] = len(ctors)
-    ext = sorted(c for c in (g.called | g.used_globals) if c in m.decls and c not in m.funcs)
-    EXC = r'@_ZNSt(9exception|11logic_error|16invalid_argument|12length_error|12out_of_range|13runtime_error|14overflow_error|11range_error|12domain_error|15underflow_error)[CD][12]E'
-    for c in ext:
-        ret, args, va = m.decls[c]
-        a = ', '.join('%s a%d' % (g.cty(t), i) for i, t in enumerate(args)) or 'void'
-        if re.match(EXC, c) and g.cty(ret) == 'void':
-            # std exception constructors/destructors (bodies live in libstdc++.so): message text is not part of any property
-            protos.append('void %s(%s);' % (fname(c), a)); bodies.append('void %s(%s) { }\n' % (fname(c), a)); g.stats['stubbed_exception_ctor_dtor'] += 1
-            continue
-        if any(re.search(rx, c) for rx in OPTS['unreachable']) and not va:
-            # external of third-party code that no encoded path may reach: reaching it is a BOUND failure (never silently ignored)
-            rt_ = g.cty(ret)
-            protos.append('%s %s(%s);' % (rt_, fname(c), a))
-            bodies.append('%s %s(%s) { RT_ASSERT(0, "BOUND: external stubbed as unreachable was reached"); RT_ASSUME(0); %s }\n' % (rt_, fname(c), a, '' if rt_ == 'void' else ('return (%s)0;' % rt_ if ret.k in ('int', 'ptr', 'float', 'double') else '{ %s z_ = {0}; return z_; }' % rt_)))
-            g.stats['stubbed_unreachable'] += 1
-            continue
-        protos.append('%s %s(%s%s);' % (g.cty(ret), fname(c), a, ', ...' if va else ''))
     # globals (iterate: initializers may reference more globals)
     gdefs = {}; gl = {}
     for ln in m.gorder:
@@ -998,9 +992,29 @@ def translate(m, roots):
                 if t in ('global', 'constant'): break
             ty = p.type()
             cn = 'g_' + mangle(name)
-            if (external or p.done()) and name.startswith('@_ZTV'): gdefs[name] = '%s; /* vtable of a libstdc++ class: address identity only */' % g.decl(ty, cn)
+            if name.startswith(('@_ZTI', '@_ZTS')) and not (external or p.done()):
+                gdefs[name] = '%s; /* RTTI object of a user class: identity only (no typeid / dynamic_cast on encoded paths) */' % g.decl(ty, cn)
+            elif (external or p.done()) and name.startswith('@_ZTV'): gdefs[name] = '%s; /* vtable of a libstdc++ class: address identity only */' % g.decl(ty, cn)
             elif external or p.done(): gdefs[name] = 'extern %s;' % g.decl(ty, cn)
             else: gdefs[name] = '%s = %s;' % (g.decl(ty, cn), const_init(fg0, p, ty))
+        drain([c for c in sorted(g.used_globals) if c in m.funcs and c not in seen])   # functions referenced only from initialisers (vtables)
+    ext = sorted(c for c in (g.called | g.used_globals) if c in m.decls and c not in m.funcs)
+    EXC = r'@_ZNSt(9exception|11logic_error|16invalid_argument|12length_error|12out_of_range|13runtime_error|14overflow_error|11range_error|12domain_error|15underflow_error)[CD][12]E'
+    for c in ext:
+        ret, args, va = m.decls[c]
+        a = ', '.join('%s a%d' % (g.cty(t), i) for i, t in enumerate(args)) or 'void'
+        if re.match(EXC, c) and g.cty(ret) == 'void':
+            # std exception constructors/destructors (bodies live in libstdc++.so): message text is not part of any property
+            protos.append('void %s(%s);' % (fname(c), a)); bodies.append('void %s(%s) { }\n' % (fname(c), a)); g.stats['stubbed_exception_ctor_dtor'] += 1
+            continue
+        if any(re.search(rx, c) for rx in OPTS['unreachable']) and not va:
+            # external of third-party code that no encoded path may reach: reaching it is a BOUND failure (never silently ignored)
+            rt_ = g.cty(ret)
+            protos.append('%s %s(%s);' % (rt_, fname(c), a))
+            bodies.append('%s %s(%s) { RT_ASSERT(0, "BOUND: external stubbed as unreachable was reached"); RT_ASSUME(0); %s }\n' % (rt_, fname(c), a, '' if rt_ == 'void' else ('return (%s)0;' % rt_ if ret.k in ('int', 'ptr', 'float', 'double') else '{ %s z_ = {0}; return z_; }' % rt_)))
+            g.stats['stubbed_unreachable'] += 1
+            continue
+        protos.append('%s %s(%s%s);' % (g.cty(ret), fname(c), a, ', ...' if va else ''))
     # types: order named structs by by-value dependency
     order = []; state = {}
     def deps(t, acc):
